@@ -302,3 +302,25 @@ def lp_hard_s(draw, ops=("refines", "simplify", "is_empty")):
     perm = draw(st.permutations(list(range(len(terms)))))
     row = None if e.get("row") is None else perm.index(e["row"])
     return [terms[i] for i in perm], w, row
+
+
+# ---------------------------------------------------------------- unusual variable names
+NAME_SCHEMES = {
+    # names that are prefixes / substrings of one another across the interface
+    "prefix": {"a": "i1", "b": "i10", "c": "i", "x": "o1", "y": "o10", "z": "o100", "q": "o", "r": "i1x", "s": "x1", "tmp": "o1o", "zz": "i0",
+               "u": "i11", "v": "o11", "w": "io", "p": "oi"},
+    # names that look like numbers, exponents or well-known symbols
+    "symbols": {"a": "e1", "b": "E2", "c": "inf", "x": "S", "y": "N", "z": "Q", "q": "e", "r": "nan", "s": "I", "tmp": "E", "zz": "pi",
+                "u": "O", "v": "beta", "w": "re", "p": "gamma"},
+    # underscores, digits, long names, names that sort differently from their insertion order
+    "shapes": {"a": "_a", "b": "a_", "c": "a" * 40, "x": "x_1", "y": "x_10", "z": "x_2", "q": "x_", "r": "_", "s": "__x", "tmp": "x__", "zz": "a_a",
+               "u": "Z9", "v": "z10", "w": "z9", "p": "Z10"},
+}
+
+
+def rename_terms(ts, m):
+    return [[{m.get(k, k): v for k, v in t[0].items()}, t[1]] for t in ts]
+
+
+def rename_contract(c, m):
+    return {"a": rename_terms(c["a"], m), "g": rename_terms(c["g"], m), "i": [m.get(v, v) for v in c["i"]], "o": [m.get(v, v) for v in c["o"]]}
